@@ -79,7 +79,7 @@ def ClassDef.hasAttr (c : ClassDef) (m : String) : Bool :=
 inductive CKind
   | mcaller      -- `_m_caller` partial: carries `_watcher_name`
   | bound        -- a bound method passed to `param.watch`
-  | partial      -- `functools.partial(obj.method, tag)` passed to `param.watch`
+  | partialFn    -- `functools.partial(obj.method, tag)` passed to `param.watch`
   deriving DecidableEq, Repr
 
 /-- the callable of a watcher: `(owner object, method name, what='value', changed, callback kind)` -/
@@ -536,7 +536,7 @@ def doWatchPartial (w : World) (o : Nat) (p : String) (target : Nat) (cb : Strin
   | some _, some t =>
     if ((w.cls? t).map (·.hasAttr cb)).getD false then
       .ok (({ w with nextPid := w.nextPid + 1 }).addWatcher
-        { inst := o, fn := { kind := .partial, owner := target, method := cb, changed := Option.none, pid := w.nextPid },
+        { inst := o, fn := { kind := .partialFn, owner := target, method := cb, changed := Option.none, pid := w.nextPid },
           names := [p], precedence := 0 })
     else .error .unsupported
   | _, _ => .error .unsupported
@@ -606,11 +606,14 @@ def renCaller (no np : Nat) (c : Caller) : Caller :=
 def renWatcher (no np : Nat) (wt : Watcher) : Watcher :=
   { wt with inst := no + wt.inst, fn := renCaller no np wt.fn }
 
+def renPCopy (no nc np : Nat) (pc : PCopy) : PCopy :=
+  { pc with slots := pc.slots.map (fun s => (nc + s.1, nc + s.2)),
+            swatchers := pc.swatchers.map (renWatcher no np) }
+
 /-- the deep copy of one object's state, before `__setstate__` -/
 def renObj (no nc np : Nat) (ob : Obj) : Obj :=
   { ob with values := ob.values.map (fun kv => (kv.1, renVal no nc kv.2)),
-            pcopies := ob.pcopies.map (fun kv => (kv.1, { kv.2 with slots := kv.2.slots.map fun s => (nc + s.1, nc + s.2),
-                                                                  swatchers := kv.2.swatchers.map (renWatcher no np) })),
+            pcopies := ob.pcopies.map (fun kv => (kv.1, renPCopy no nc np kv.2)),
             attrs := ob.attrs.map (fun kv => (kv.1, renVal no nc kv.2)),
             watchers := ob.watchers.map (fun kv => (kv.1, kv.2.map (renWatcher no np))),
             dyn := ob.dyn.map (fun kv => (kv.1, kv.2.map (renWatcher no np))) }
@@ -636,7 +639,7 @@ def rebindWatcher (pol : Policy) (cls : Option ClassDef) (self : Nat) (wt : Watc
           .ok ({ wt with inst := self, fn := { kind := .mcaller, owner := self, method := wt.fn.method, changed := Option.none, pid := pid } }, pid + 1)
         else .error .attributeError
     else .ok ({ wt with inst := self }, pid)
-  | .partial =>
+  | .partialFn =>
     -- `get_method_owner(partial)` is None (not a method): the copied callable is kept
     .ok ({ wt with inst := self }, pid)
   | .bound =>
